@@ -115,6 +115,10 @@ type Config struct {
 	// (hooks/fw/face/verif_export.go) and whatever it queued on the driven thread is then
 	// processed. The egress seam (recording dispatch.Face) is the same in both modes.
 	RealLinkService bool
+	// OnSend, if set, is called at the start of every SendPacket on a fake face, in the goroutine
+	// that sends (the forwarding thread). Used by free-running passes that need the thread to be
+	// busy at a chosen moment; the synchronous searches leave it nil.
+	OnSend func(face uint64)
 }
 
 // Kind of a recorded packet.
@@ -179,6 +183,9 @@ func (f *Face) Spec() FaceSpec          { return f.spec }
 
 // SendPacket records what the forwarding thread hands to the face.
 func (f *Face) SendPacket(out dispatch.OutPkt) {
+	if f.sim.Cfg.OnSend != nil {
+		f.sim.Cfg.OnSend(f.id)
+	}
 	s := Send{Face: f.id, InFace: out.InFace}
 	if len(out.PitToken) > 0 {
 		s.PitToken = append([]byte{}, out.PitToken...)
@@ -501,6 +508,13 @@ func (s *Sim) NameForThread(stem string, suffixes ...string) string {
 	panic("fwsim: no name hashes to the driven thread")
 }
 
+// Enqueue hands a frame to the REAL link service of the face (as RealLinkService mode does) and
+// returns: whatever the link service queued on a forwarding thread is left to that thread's own
+// Run() loop. For free-running passes that start Thread.Run() in a goroutine.
+func (s *Sim) Enqueue(faceID uint64, wire []byte, lp LP) {
+	s.link(s.Faces[faceID]).VerifHandleIncomingFrame(EncodeFrame(wire, lp))
+}
+
 // Interest injects an Interest built by MakeInterest.
 func (s *Sim) Interest(face uint64, i InterestSpec, lp LP) []Send {
 	return s.Inject(face, MakeInterest(i), lp)
@@ -709,3 +723,15 @@ func (s *Sim) RunFor(d, step time.Duration) []Send {
 	}
 	return s.log[mark:]
 }
+
+// RemoveFace takes a face out of the forwarder's tables the way face.FaceTable.Remove does when a
+// face is destroyed or its link service stops (dispatch.RemoveFace + table.Rib.CleanUpFace). The
+// harness may still Inject packets attributed to that face: frames the face received before it
+// went down sit in the threads' queues and are processed afterwards.
+func (s *Sim) RemoveFace(id uint64) {
+	dispatch.RemoveFace(id)
+	table.Rib.CleanUpFace(id)
+}
+
+// FaceRegistered reports whether dispatch still knows the face.
+func (s *Sim) FaceRegistered(id uint64) bool { return dispatch.GetFace(id) != nil }
